@@ -31,10 +31,19 @@ META = {
                   "restored buffer is compared bit for bit, float tokens against a python reference rendering. Enum fields use enums "
                   "with every (cpp) enum_case setting (SHOUTY_CASE, kCamelCase, both orders; module/enum $default and per value); the "
                   "text always uses the Emboss name (model) and must be read back. "
-                  "struct_roundtrip is `_partial`: the storage step (the sequence of TryToWrite calls, in dependency order, on the "
-                  "zeroed buffer succeeds and reads back; needs the layout semantics of C01/C03/C15) is the named hypothesis "
-                  "Hstore of struct_roundtrip_partial and is observed on the C++ side on every generated case; everything the text "
-                  "contributes is proved (text_roundtrip, array_roundtrip). The generator's text_output table is regenerated "
+                  "The storage step (the sequence of TryToWrite calls, in dependency order, on the zeroed buffer succeeds and reads "
+                  "back) is a named hypothesis Hstore only for an ABSTRACT store (struct_roundtrip_partial); for the concrete byte "
+                  "store of Text/Store.v (TryToWrite/Read = the C02/C03 views of Bits/Model.v at the field's byte offset, container "
+                  "size, byte order, bit range, kind) it is PROVED: struct_roundtrip_static (scalar leaves UInt/Int/Bcd/Flag/unsigned "
+                  "enum at constant pairwise disjoint locations, top level, nested structures, `bits`, array elements: no storage "
+                  "hypothesis), struct_roundtrip_dynamic (byte offsets = constant + integer fields, existence = conjunction of "
+                  "field == k / flag tests, evaluated on the buffer being restored: no hypothesis beyond layout_okb of the resolved "
+                  "table, which contains 'what a field depends on is written before it'), struct_roundtrip_dependent (any layout "
+                  "function, hypothesis `determined` only). Each run the model store is compared BYTE FOR BYTE with the buffer C++ "
+                  "restores (locations computed from the IR of the real front end), with the static and the dependent layout, and "
+                  "layout_okb is evaluated on every generated view (counts: store-class:*). Still outside: writable virtual fields "
+                  "(inverse transform), signed enums (F1), Float, other location/condition expressions, field-dependent array counts. "
+                  "The generator's text_output table is regenerated "
                   "from the working tree each run and checked against gentab_ok. allow_partial_output is not modelled. The "
                   "`unsigned offset` of DecodeInteger is unbounded in the model (texts >= 2^32 chars excluded). Round trip "
                   "presupposes that fields other fields depend on are not marked Skip. "
@@ -731,6 +740,7 @@ def run_struct_tie(ctx, gt, only=None):
     _tick(ctx, "modules built and run")
     # ---- pass 1: text comparison and C++ read-back
     wcases = []
+    scases, qcases = [], []
     n_build_fail = 0
     float_stats = dict(cases=0, ok=True, tokens=0)
     for md in mods:
@@ -789,6 +799,8 @@ def run_struct_tie(ctx, gt, only=None):
             exp = "(%s, %s)" % (G.coq_text(text), "true" if mt["reread"] else "false")
             inp_term = "(%s, %s, %s)" % (gt_term(gt), G.coq_opts(o), mt["vname"])
             wcases.append((inp_term, exp, dict(md=md, mt=mt, replay=replay, defs=mt["vdef"])))
+            if mt["reread"]:
+                _collect_store_case(ctx, md, mt, kv, gt, replay, scases, qcases)
             if mt["flat"] and mt["reread"]:
                 md["flat_texts"].setdefault(mt["top"], []).append((text.decode("latin-1"), mt))
     # for option sets that are not re-readable (single line + comments) only the text is compared
@@ -817,10 +829,127 @@ def run_struct_tie(ctx, gt, only=None):
             break
         mtext = _model_text(mo, idx % runner.shard)
         decide_text_mismatch(ctx, obj, mtext, gt)
+    # ---- the concrete byte store: model bytes == C++ bytes
+    run_store_tie(ctx, scases, qcases, required=only is None)
     # ---- pass 2: UpdateFromText on perturbed texts (flat structures)
     run_update_tie(ctx, mods, results, n_pert, gt)
     ctx.extra["modules_built"] = len(mods) - n_build_fail
     ctx.extra["modules_failed_to_build"] = n_build_fail
+
+
+STORE_HEADER = ('Set Warnings "-notation-overridden".\nRequire Import EmbossV.Bits.Model.\n'
+                "Require Import EmbossV.Text.IntCodec EmbossV.Text.StructText EmbossV.Text.Store EmbossV.Text.Exec.\n"
+                "Open Scope Z_scope.\n")
+
+
+def _collect_store_case(ctx, md, mt, kv, gt, replay, scases, qcases):
+    """One case of the byte-store tie: the model (zeroed buffer -> UpdateFromText(model text) with TryToWrite = the
+    scalar views of Bits/Model.v at the locations computed from the IR) must leave the bytes C++ left in buf2.
+    Every instance is taken with its first option set, a quarter of the others too."""
+    import zlib
+    from harness import gen_bits
+    cache = md.setdefault("store_cache", {})
+    vname = mt["vname"]
+    first = vname not in cache
+    if first:
+        try:
+            sl = G.StoreLayout(md["ir"])
+            entries = sl.build(md["vb"].find_type(mt["top"]), mt["inst"])
+            have = {e["path"] for e in entries}
+            missing = [p for p in G.emitted_leaf_paths(mt["tree"], gt) if p not in have]
+            if missing:
+                # a written field that is not a scalar at a location (writable virtual field: TryToWrite goes through
+                # the inverse transform, C03 invert_correct) -- outside the store model
+                raise G.OutOfModel("emitted-field-without-location")
+            dd = {}
+            lt, dt, dep = G.coq_store_tables(entries, mt["inst"], dd, gen_bits.null_constructor())
+            defs = [(k, ty, tm) for k, (ty, tm) in dd.items()] + [("lt_" + vname, "ltab", lt), ("dt_" + vname, "dtab", dt)]
+            # why a view may lie outside the proved class (only used to label the counts)
+            byp = {e["path"]: e for e in entries}
+            evp = list(G.emitted_leaf_paths(mt["tree"], gt))
+            why = []
+            if any(byp[p]["loc"]["kind"] == "SEnum" and byp[p]["loc"]["ity"][0] for p in evp):
+                why.append("signed-enum")
+            spots = [(byp[p]["base"], tuple(byp[p]["terms"]), byp[p]["loc"]["c"], byp[p]["loc"]["bits"]) for p in evp]
+            if len(set(spots)) < len(spots):
+                why.append("field-and-its-alias-both-emitted")
+            cache[vname] = dict(defs=defs, dep=dep, n_entries=len(entries), why="+".join(why) or "other")
+        except G.OutOfModel as ex:
+            cache[vname] = None
+            ctx.count("store:out-of-model:" + str(ex).split(" ")[0])
+    st = cache[vname]
+    if st is None:
+        return
+    o = mt["opts"]
+    key = ("%s %s %s" % (md["name"], vname, sorted(o.items()))).encode()
+    if not first and zlib.crc32(key) % 4 != 0:
+        return
+    n = len(mt["raw"])
+    buf2 = bytes.fromhex(kv["buf2"]) if kv["buf2"] != "-" else b""
+    if len(buf2) != n:
+        ctx.violation("struct-driver:buf2", "driver printed %d restored bytes for a buffer of %d" % (len(buf2), n),
+                      dict(replay), found_input=False)
+        return
+    stt = 0 if kv["upd"] == "1" else 1
+    bl = "[" + ";".join("%d" % b for b in buf2) + "]"
+    exp = "(%d, %s, (%d, %s), true)" % (stt, bl, stt, bl)
+    inp = "(%s, %s, %s, %d%%nat, lt_%s, dt_%s)" % (gt_term(gt), G.coq_opts(o), vname, n, vname, vname)
+    obj = dict(md=md, mt=mt, replay=replay, defs=mt["vdef"] + st["defs"], dep=st["dep"], buf2=buf2.hex(), upd=kv["upd"], why=st["why"])
+    scases.append((inp, exp, obj))
+    if first:
+        qcases.append(("(%s, %s, %d%%nat, lt_%s)" % (gt_term(gt), vname, n, vname), "true",
+                       dict(obj, dyn_term="(%s, %s, %d%%nat, dt_%s)" % (gt_term(gt), vname, n, vname))))
+
+
+def run_store_tie(ctx, scases, qcases, required=True):
+    if not scases:
+        if required:
+            ctx.obligation("correspondence: byte store (no case could be built)", False)
+        return
+    runner = SharedCases(ctx, "store", STORE_HEADER, "run_store", "store_out_eqb", "store_case", "store_out", shard=60, timeout=2400)
+    bad = runner.run(scases)
+    _tick(ctx, "store cases evaluated in Coq (%d)" % len(scases))
+    q = SharedCases(ctx, "storeclass", STORE_HEADER, "run_inclass", "Bool.eqb", "(gentab * tval * nat * ltab)", "bool", shard=120, timeout=1200)
+    outside = {i for i, _ in q.run(qcases)}
+    qd = SharedCases(ctx, "storeclassdyn", STORE_HEADER, "run_inclass_dyn", "Bool.eqb", "(gentab * tval * nat * dtab)", "bool",
+                     shard=120, timeout=1200)
+    outside_dyn = {i for i, _ in qd.run([(o["dyn_term"], "true", o) for _, _, o in qcases])}
+    _tick(ctx, "class membership evaluated in Coq (%d)" % len(qcases))
+    n_in = {True: 0, False: 0}
+    n_dyn = 0
+    for i, (a, b, obj) in enumerate(qcases):
+        # the static table (source locations) and `resolve` of the dependent table normally put a view in the class together;
+        # they differ when a field another one depends on is not written before it (marked Skip): counted
+        if (i in outside) != (i in outside_dyn):
+            ctx.count("store-class:static-table-and-resolved-table-differ")
+        if i in outside:
+            ctx.count("store-class:outside(%s):%s" % ("dependent" if obj["dep"] else "static", obj["why"]))
+        else:
+            n_in[obj["dep"]] += 1
+            if obj["dep"] and i not in outside_dyn:
+                n_dyn += 1
+            ctx.count("store-class:%s" % ("dependent-layout(struct_roundtrip_dynamic)" if obj["dep"]
+                                          else "static-layout(struct_roundtrip_static)"))
+    for a, b, obj in scases:
+        ctx.case(("s", a), nontrivial=len(obj["buf2"]) > 4 and obj["upd"] == "1", sample=None)
+        ctx.count("store:%s" % ("dependent" if obj["dep"] else "static"))
+    ctx.obligation("correspondence: concrete byte store -- zeroed buffer -> UpdateFromText(model text) with TryToWrite = Bits/Model.v views "
+                   "leaves exactly the bytes C++ left (static table of source locations AND dependent layout evaluated on the restored "
+                   "buffer), and in the proved classes the update succeeds and every emitted field reads back: %d cases (%d with "
+                   "buffer-dependent locations)"
+                   % (len(scases), sum(1 for _, _, o in scases if o["dep"])), not bad)
+    ctx.obligation("instances of struct_roundtrip_static / struct_roundtrip_dynamic: the hypotheses (layout_okb; for the dependent layouts "
+                   "layout_okb of `resolve`) hold for %d generated views with a static layout and %d with buffer-dependent locations "
+                   "(of %d views)" % (n_in[False], n_dyn, len(qcases)), n_in[False] + n_dyn > 0 or not required)
+    ctx.extra["store"] = dict(cases=len(scases), views=len(qcases), in_class_static=n_in[False], in_class_dependent=n_in[True],
+                              in_class_dynamic_theorem=n_dyn)
+    for idx, mo in bad[:6]:
+        a, b, obj = scases[idx]
+        mt = obj["mt"]
+        ctx.violation("store-correspondence", "model byte store and C++ disagree on the restored bytes (struct %s, options %s)"
+                      % (mt["top"], mt["opts"]),
+                      dict(obj["replay"], correspondence="Text.Exec.run_store vs UpdateFromText(WriteToString(view)) into a zeroed buffer",
+                           cpp_bytes=obj["buf2"], cpp_upd=obj["upd"], model_outputs=mo[:2000]), found_input=False)
 
 
 def _scalar_floats(sdef, inst, out=None):
